@@ -733,4 +733,159 @@ theorem default_unmatched_conv (P : Matrix) (v : Val) (vs : List Val) (hf : head
       rw [hm.2] at this
       exact absurd this (by simp)
 
+
+/-! ### helpers for the counterexample search -/
+
+theorem firstO_none {α β : Type} (f : α → Option (Option β)) : ∀ (l : List α),
+    firstO f l = some none → ∀ x ∈ l, f x = some none
+  | [], _, x, hx => by simp at hx
+  | y :: l, h, x, hx => by
+    simp only [firstO] at h
+    cases hy : f y with
+    | none => simp [hy] at h
+    | some r =>
+      cases r with
+      | some d => simp [hy] at h
+      | none =>
+        simp only [hy] at h
+        simp only [List.mem_cons] at hx
+        rcases hx with hx | hx
+        · rw [hx]; exact hy
+        · exact firstO_none f l h x hx
+
+theorem mem_insertByKey (kv x : Option Ctor × Nat) : ∀ (l : List (Option Ctor × Nat)),
+    x ∈ insertByKey kv l ↔ x = kv ∨ x ∈ l
+  | [] => by simp [insertByKey]
+  | y :: l => by
+    simp only [insertByKey]
+    split
+    · simp
+    · simp only [List.mem_cons, mem_insertByKey kv x l]
+      constructor
+      · rintro (h | h | h)
+        · exact Or.inr (Or.inl h)
+        · exact Or.inl h
+        · exact Or.inr (Or.inr h)
+      · rintro (h | h | h)
+        · exact Or.inr (Or.inl h)
+        · exact Or.inl h
+        · exact Or.inr (Or.inr h)
+
+theorem mem_sortByKey (x : Option Ctor × Nat) : ∀ (l : List (Option Ctor × Nat)), x ∈ sortByKey l ↔ x ∈ l
+  | [] => by simp [sortByKey]
+  | y :: l => by
+    have := mem_sortByKey x l
+    simp only [sortByKey, List.foldr_cons] at this ⊢
+    rw [mem_insertByKey, this]
+    simp
+
+
+theorem firstO_some {α β : Type} (f : α → Option (Option β)) : ∀ (l : List α) (d : β),
+    firstO f l = some (some d) → ∃ x ∈ l, f x = some (some d)
+  | [], d, h => by simp [firstO] at h
+  | y :: l, d, h => by
+    simp only [firstO] at h
+    cases hy : f y with
+    | none => simp [hy] at h
+    | some r =>
+      cases r with
+      | some d' =>
+        simp only [hy, Option.some.injEq] at h
+        exact ⟨y, by simp, by rw [hy, h]⟩
+      | none =>
+        simp only [hy] at h
+        obtain ⟨x, hx, hfx⟩ := firstO_some f l d h
+        exact ⟨x, by simp [hx], hfx⟩
+
+theorem minCtor_mem : ∀ (l : List (Ctor × Nat)) (x : Ctor × Nat), minCtor l = some x → x ∈ l
+  | [], x, h => by simp [minCtor] at h
+  | y :: l, x, h => by
+    simp only [minCtor] at h
+    cases hm : minCtor l with
+    | none => simp [hm] at h; simp [h]
+    | some z =>
+      simp only [hm] at h
+      split at h
+      · simp at h; simp [h]
+      · simp at h; exact List.mem_cons_of_mem _ (minCtor_mem l x (by rw [hm, h]))
+
+theorem minCtor_none : ∀ (l : List (Ctor × Nat)), minCtor l = none → l = []
+  | [], _ => rfl
+  | y :: l, h => by
+    simp only [minCtor] at h
+    cases hm : minCtor l with
+    | none => simp [hm] at h
+    | some z => simp only [hm] at h; split at h <;> simp at h
+
+theorem patTys_take_drop : ∀ (sig : Sig) (tys ts : List Nat) (v : List Pat), patTys sig v (tys ++ ts) = true →
+    patTys sig (v.take tys.length) tys = true ∧ patTys sig (v.drop tys.length) ts = true
+  | _, [], ts, v, h => by simpa [patTys] using h
+  | sig, t :: tys, ts, [], h => by simp [patTys] at h
+  | sig, t :: tys, ts, p :: v, h => by
+    simp only [List.cons_append, patTys, Bool.and_eq_true] at h
+    have := patTys_take_drop sig tys ts v h.2
+    simp [patTys, h.1, this.1, this.2]
+
+theorem okPats_take_drop (n : Nat) (v : List Pat) (h : okPats v = true) :
+    okPats (v.take n) = true ∧ okPats (v.drop n) = true := by
+  have := okPats_append (v.take n) (v.drop n)
+  rw [List.take_append_drop, h] at this
+  simpa using this.symm
+
+
+theorem sigIncomplete_some_cases (cx : Cx) (roots : List (Option Ctor × Nat)) (inc : List (Ctor × Nat))
+    (h : sigIncomplete cx roots = some inc) :
+    (roots = [] ∧ inc = []) ∨
+    (∃ c0 rn rest, roots = (some c0, rn) :: rest ∧ inc ≠ [] ∧
+      ∀ x ∈ inc, x.1.cls = c0.cls ∧ (x.1.name, x.2) ∈ cx c0.cls ∧
+        ∀ k m, (some k, m) ∈ roots → k.name ≠ x.1.name) := by
+  unfold sigIncomplete at h
+  split at h
+  · simp at h
+  · cases roots with
+    | nil => simp at h; exact Or.inl ⟨rfl, h⟩
+    | cons r0 rest =>
+      obtain ⟨rc, rn⟩ := r0
+      cases rc with
+      | none => simp at h
+      | some c0 =>
+        simp only at h
+        split at h
+        · simp at h
+        · rename_i hemp
+          simp only [Option.some.injEq] at h
+          refine Or.inr ⟨c0, rn, rest, rfl, ?_, ?_⟩
+          · intro he; rw [← h] at he; rw [he] at hemp; simp at hemp
+          · intro x hx
+            rw [← h] at hx
+            obtain ⟨nv, hnv, rfl⟩ := List.mem_map.mp hx
+            simp only [List.mem_filter, Bool.not_eq_true'] at hnv
+            refine ⟨rfl, hnv.1, ?_⟩
+            intro k m hkm hname
+            have hc : (List.filterMap (fun r => Option.map (fun x => x.name) r.fst)
+                ((some c0, rn) :: rest)).contains nv.fst = true := by
+              simp only [List.contains_iff_mem, List.mem_filterMap]
+              exact ⟨(some k, m), hkm, by simpa using hname⟩
+            rw [hnv.2] at hc; cases hc
+
+
+/-- variant names of an enum are pairwise different -/
+def SigNodup (sig : Sig) : Prop := ∀ t cls vs, sig t = .enum cls vs → (vs.map (·.1)).Nodup
+
+theorem findVariant_nodup : ∀ (vs : List (Nat × List Nat)) (name : Nat) (tys : List Nat),
+    (vs.map (·.1)).Nodup → (name, tys) ∈ vs → findVariant vs name = some tys
+  | [], _, _, _, h => by simp at h
+  | (n, tys') :: rest, name, tys, hnd, h => by
+    simp only [List.map_cons, List.nodup_cons, List.mem_map, not_exists, not_and] at hnd
+    simp only [findVariant]
+    simp only [List.mem_cons, Prod.mk.injEq] at h
+    by_cases e : n = name
+    · simp only [e, if_true, Option.some.injEq]
+      rcases h with h | h
+      · exact h.2.symm
+      · exact absurd (by rw [e]) (hnd.1 (name, tys) h)
+    · simp only [e, if_false]
+      rcases h with h | h
+      · exact absurd h.1.symm e
+      · exact findVariant_nodup rest name tys hnd.2 h
 end SamVerif.Useful
